@@ -52,7 +52,7 @@ def build(rnd):
                 except ValueError:
                     pass
             m.submodules[f"cdec{len(keep)}"] = dec; keep.append(dec)
-            return dec.bus, ("dec", aw, kids)
+            return dec.bus, ("dec", dec.bus, kids)
         if kind == "monitor":
             em = event.EventMap()
             n = rnd.choice([1, 3, 9])
@@ -61,13 +61,13 @@ def build(rnd):
             mon = csr.EventMonitor(em, data_width=cdw, alignment=rnd.choice([0, 1]))
             if mon.bus.memory_map.addr_width <= aw_max:
                 m.submodules[f"mon{len(keep)}"] = mon; keep.append(mon)
-                return mon.bus, ("leaf", mon.bus.memory_map.addr_width)
+                return mon.bus, ("leaf", mon.bus)
         if kind == "gpio":
             n = rnd.choice([1, 3, 5])
             try:
                 g = gpio.Peripheral(pin_count=n, addr_width=rnd.randint(2, aw_max), data_width=cdw, input_stages=0)
                 m.submodules[f"gpio{len(keep)}"] = g; keep.append(g)
-                return g.bus, ("leaf", len(g.bus.addr))
+                return g.bus, ("leaf", g.bus)
             except ValueError:
                 pass
         aw = rnd.randint(1, aw_max)
@@ -83,7 +83,7 @@ def build(rnd):
             try:
                 br = csr.Bridge(b.as_memory_map())
                 m.submodules[f"br{len(keep)}"] = br; keep.append(br)
-                return br.bus, ("leaf", aw)
+                return br.bus, ("leaf", br.bus)
             except ValueError:
                 pass
         mm = MemoryMap(addr_width=aw, data_width=cdw, alignment=rnd.choice([0, 0, 1]))
@@ -98,7 +98,7 @@ def build(rnd):
                 pass
         mux = csr.Multiplexer(mm, shadow_overlaps=rnd.choice([None, None, 2]))
         m.submodules[f"mux{len(keep)}"] = mux; keep.append(mux)
-        return mux.bus, ("leaf", aw)
+        return mux.bus, ("leaf", mux.bus)
 
     aw = rnd.randint(4, 8 - gb)                      # root word-address width; granule addresses = aw + gb <= 8..10
     root = wishbone.Decoder(addr_width=aw, data_width=wdw, granularity=cdw, alignment=rnd.choice([0, 0, 1, 3, 4]))
@@ -111,6 +111,7 @@ def build(rnd):
             sub = s.wb_bus
             m.submodules[f"sram{i}"] = s
             srams.append(s)
+            leafdesc = ("sram", s)
         else:
             cbus, d = csr_leaf(min(6, aw + gb - 1), 2)
             if len(cbus.addr) < gb:
@@ -118,17 +119,19 @@ def build(rnd):
             br = WishboneCSRBridge(cbus, data_width=wdw, name=None if rnd.random() < .4 else f"csr{i}")
             sub = br.wb_bus
             m.submodules[f"wbbr{i}"] = br
+            leafdesc = ("bridge", d)
         try:
             if rnd.random() < .45:
                 root.add(sub, name=None if rnd.random() < .3 else f"w{i}")
             else:
                 unit = max(sub.memory_map.addr_width, root.bus.memory_map.alignment)
                 root.add(sub, name=f"w{i}", addr=(rnd.randrange(1 << (aw + gb)) >> unit) << unit)
+            subs.append((sub, leafdesc))
         except ValueError:
             pass
     m.submodules.root = root
     d = Signal(name="verif_dummy"); m.d.sync += d.eq(~d)
-    h.top, h.root, h.srams, h.cdw, h.ratio, h.gb, h.aw, h.keep = m, root, srams, cdw, ratio, gb, aw, keep
+    h.top, h.root, h.srams, h.cdw, h.ratio, h.gb, h.aw, h.keep, h.subs = m, root, srams, cdw, ratio, gb, aw, keep, subs
     return h
 
 
@@ -150,6 +153,32 @@ def run_impl(case):
             owner[a] = i
     regs = [i for i in infos if hasattr(i.resource, "element")]
     mems = {id(s._mem): s for s in h.srams}
+    # ---- structure for the Lean routing model, read back from the real memory maps
+    rid = {id(i.resource): k for k, i in enumerate(infos)}
+
+    def csr_tokens(d):
+        if d[0] == "leaf":
+            mmp = d[1].memory_map
+            items = [(rid[id(r)], s_, e_ - s_) for r, n_, (s_, e_) in mmp.resources()]
+            return ["M", str(mmp.addr_width), str(len(items))] + [str(x) for it in items for x in it]
+        mmp = d[1].memory_map
+        st = {id(w): s_ for w, n_, (s_, e_, r_) in mmp.windows()}
+        kids = sorted(((st[id(kd[1].memory_map)], kd) for _, kd in d[2]), key=lambda t: t[0])
+        toks = ["D", str(mmp.addr_width), str(len(kids))]
+        for s_, kd in kids:
+            toks += [str(s_)] + csr_tokens(kd)
+        return toks
+
+    wst = {id(w): s_ for w, n_, (s_, e_, r_) in mmap.windows()}
+    lines = [f"case {gb} {h.aw}"]
+    for sub, ld in sorted(h.subs, key=lambda t: wst[id(t[0].memory_map)]):
+        s_ = wst[id(sub.memory_map)]
+        if ld[0] == "sram":
+            lines.append(f"leaf sram {s_} {rid[id(ld[1]._mem)]} {sub.memory_map.addr_width}")
+        else:
+            lines.append(f"leaf bridge {s_} " + " ".join(csr_tokens(ld[1])))
+    lines += ["routeall", "end"]
+    obs = ["route " + " ".join("-" if o is None else f"{rid[id(o.resource)]}:{a - o.start}" for a, o in enumerate(owner))]
     sim = Simulator(h.top)
     sim.add_clock(1e-6)
     fails = []
@@ -284,5 +313,5 @@ def run_impl(case):
     sim.add_testbench(tb)
     sim.run()
     descr = " ".join(f"{'/'.join(str(tuple(p)) for p in i.path)}@{i.start}-{i.end}" for i in infos)[:600]
-    return {"lines": [], "obs": [], "fails": fails, "stats": stats, "key": descr + str(case["idx"]),
+    return {"lines": lines, "obs": obs, "fails": fails, "stats": stats, "key": descr + str(case["idx"]),
             "descr": f"root aw={h.aw} wb_dw={cdw * ratio} csr_dw={cdw}: {descr}"}
